@@ -467,14 +467,6 @@ func c14ExecRun(t *rapid.T) {
 			return
 		}
 	}
-	if cacheOn {
-		for text, tm := range plush.VerifCachedTemplates() {
-			if tm != nil && tm.Input != text {
-				violate(t, "C14", "cache-serves-the-template-of-its-text", "cache-key-mismatch:"+scName, details("cache entry whose template has another Input"))
-				return
-			}
-		}
-	}
 	sample(3, func() interface{} {
 		d := details("ok")()
 		delete(d, "race_report")
